@@ -3,6 +3,7 @@ from __future__ import annotations
 
 import datetime as _dt
 import itertools
+import types
 
 import numpy as np
 import z3
@@ -12,12 +13,15 @@ from symx.runner import Ob
 from symx.stubs import shadow
 
 ID = "C08"
-TECHNIQUE = ("the real JobExecutor.join, the processResults of the reward/task-execution/propagation/prediction/update registrations, TaskingEngine bookkeeping "
-             "and CentralizedTaskingEngine.assess are executed with ray replaced by a stub whose completion order is a solver variable per ray.wait call, "
+TECHNIQUE = ("the real JobExecutor.join, the processResults of the reward/task-execution/propagation/prediction/update registrations, TaskingEngine bookkeeping, "
+             "CentralizedTaskingEngine.assess and (step-* obligations) the real Scenario.stepForward around it, with sensing agents built by the real SensingAgent constructor, "
+             "are executed with ray replaced by a stub whose completion order is a solver variable per ray.wait call, "
              "worker results carrying symbolic payloads (metric values, boresight vectors, times, observe-or-miss bits); on every feasible path z3 proves the "
-             "bookkeeping oracle over the symbolic payloads (unsat), so all completion orders and all tasking outcomes within the bounds are covered")
+             "bookkeeping oracle over the symbolic payloads (unsat): exactly one record per pair of the published decision matrix, sensor_changes and - after stepForward - the "
+             "sensor agents' boresight/time_last_tasked equal to their own job's report whether the sensor observed or missed, update jobs fed with their own target's observations; "
+             "so all completion orders and all tasking outcomes within the bounds are covered")
 FLOAT_SEMANTICS = "exact (payloads are opaque reals; only equality and comparisons matter)"
-ENCODED = ["resonaate.parallel.tasking_execution:asyncExecuteTasking", 
+ENCODED = ["resonaate.parallel.tasking_execution:asyncExecuteTasking._function",
     "resonaate.parallel:JobExecutor.enqueueJob", "resonaate.parallel:JobExecutor.join",
     "resonaate.parallel.tasking_execution:TaskExecutionRegistration.processResults",
     "resonaate.parallel.tasking_reward_generation:TaskingRewardRegistration.processResults",
@@ -25,17 +29,29 @@ ENCODED = ["resonaate.parallel.tasking_execution:asyncExecuteTasking",
     "resonaate.tasking.engine.engine_base:TaskingEngine.saveObservations", "resonaate.tasking.engine.engine_base:TaskingEngine.saveMissedObservations",
     "resonaate.tasking.engine.engine_base:TaskingEngine.updateFromAsyncTaskExecution", "resonaate.tasking.engine.engine_base:TaskingEngine.getCurrentObservations",
     "resonaate.tasking.engine.engine_base:TaskingEngine.getCurrentMissedObservations",
+    "resonaate.tasking.engine.engine_base:TaskingEngine.setHandles", "resonaate.tasking.engine.engine_base:TaskingEngine.resetHandles",
     "resonaate.tasking.engine.centralized_engine:CentralizedTaskingEngine.assess",
-    "resonaate.agents.sensing_agent:SensingAgent.updateInfo",
+    "resonaate.scenario.scenario:Scenario.stepForward",
+    "resonaate.agents.sensing_agent:SensingAgent.__init__", "resonaate.agents.sensing_agent:SensingAgent.updateInfo", "resonaate.agents.sensing_agent:SensingAgent.sensors",
 ]
-BOUNDS = {"network": "2 targets x 3 sensors (quick), 3 x 3 (thorough); greedy and all-visible policies", "jobs": "<= 3 jobs per batch, every completion order",
-          "outcomes": "every observe-or-miss split of the tasked sensors; arbitrary metric values, boresights and times", "steps": "two consecutive assess calls"}
-OUTSIDE = ["Ray's delivery guarantees and pickling", "worker-side computation (C02)", "random noise values", "estimate update/predict payload contents"]
+BOUNDS = {"network": "2 targets x 3 sensors (quick), 3 x 3 (thorough); greedy and all-visible policies; through Scenario.stepForward: 2 x 2 greedy and all-visible (quick), plus 2 x 3 greedy (thorough)",
+          "jobs": "<= 3 jobs per batch, every completion order of the reward and task-execution batches",
+          "outcomes": "every observe-or-miss split of the tasked sensors (including a tasked sensor whose only record is a miss); arbitrary boresights and times; fixed distinct metric values, every visibility pattern",
+          "steps": "two consecutive assess calls; one stepForward (quick), two (thorough)"}
+OUTSIDE = ["Ray's delivery guarantees and pickling", "worker-side computation (C02)", "random noise values", "estimate update/predict payload contents and the merge of the update/prediction batches "
+           "(in the step-* obligations the propagate/predict/update registrations are recorded, not executed; the propagation merge is propagate-merge)",
+           "scenario events inside the step (C01)", "the ThreeSigmaObs debugging branch of stepForward (default configuration: off)", "more than one tasking engine per scenario",
+           "background (non-primary) observations returned by a task-execution job"]
 ASSUMPTIONS = ["ray.wait(refs) returns exactly one finished reference, chosen by the solver among the pending ones; ray.get returns the job's result; ray.put is identity",
-               "remote functions are replaced by providers of symbolic results (their computation is the subject of C02/C06)",
-               "database event query in assess returns no events"]
+               "remote functions are replaced by providers of symbolic results (their computation is the subject of C02/C06); a task-execution job reports one record and one pointing update per tasked sensor",
+               "database event query in assess returns no events",
+               "step-* obligations: Scenario object built without its constructor (attributes of the real constructor set by hand: clock, agents, stores, executors); handleRelevantEvents/getRelevantEvents "
+               "return nothing; EventStack flush is a no-op; Propagate/EstPredict/EstUpdate registrations and their executors are recorders (arguments kept, nothing executed); "
+               "targets and estimates are identity tokens; sensing agents come from the real constructor with real Optical sensors and concrete states",
+               "the tasked pairs of a step are the True cells of the engine's decision_matrix after assess()"]
 LEVEL_TEXT = ("Bounded symbolic verification of the merge logic: all completion orders of the reward and task-execution batches and all observe/miss outcomes of a small network are "
-              "paths of one symbolic execution of the real assess(); exactly-one-record, sensor state and order independence are proved on each path over symbolic payloads.")
+              "paths of one symbolic execution of the real assess() (and of the real Scenario.stepForward around it); exactly-one-record per decided pair, sensor state (engine side and agent side) "
+              "and order independence are proved on each path over symbolic payloads.")
 LEVEL_NOTE = "Small network bound; Ray replaced by a nondeterministic-order stub; payload contents opaque."
 
 
@@ -118,7 +134,85 @@ def _engine(targets, sensors, policy):
     return eng
 
 
-def _run_assess(targets, sensors, policy, steps=1):
+class _TokAgent:
+    """A target / estimate agent as far as the tasking step is concerned: an identity."""
+
+    realtime = True
+
+    def __init__(self, aid):
+        self.simulation_id = aid
+
+
+class _Reg:
+    """Stands for the propagate / predict registrations of Scenario.stepForward (their merge is the subject of propagate-merge)."""
+
+    def __init__(self, *a):
+        self.args = a
+
+
+class _NoExec:
+    def __init__(self):
+        self.regs = []
+
+    def enqueueJob(self, reg):
+        self.regs.append(reg)
+
+    def join(self):
+        pass
+
+
+def _pointing(agent):
+    """(boresight, time_last_tasked) of a sensing agent as seen through its public attributes."""
+    return list(agent.sensors.boresight), agent.sensors.time_last_tasked
+
+
+def _bare_scenario(targets, sensors, eng):
+    """A Scenario (bare object, attributes of the real constructor) around the real engine: real clock object, sensing agents
+    from the real SensingAgent constructor with real Optical sensors, identity tokens for targets and estimates."""
+    from resonaate.agents.sensing_agent import SensingAgent
+    from resonaate.dynamics.two_body import TwoBody
+    from resonaate.physics.time.stardate import ScenarioTime, datetimeToJulianDate
+    from resonaate.scenario import clock as CK
+    from resonaate.scenario import scenario as SC
+    from resonaate.sensors.optical import Optical
+
+    clock = object.__new__(CK.ScenarioClock)
+    clock.datetime_start = _dt.datetime(2021, 1, 1)
+    clock.julian_date_start = datetimeToJulianDate(clock.datetime_start)
+    clock.dt_step, clock.time, clock.initial_time, clock.logger = ScenarioTime(60.0), ScenarioTime(0.0), ScenarioTime(0.0), None
+    agents = {}
+    for k, sid in enumerate(sensors):
+        sen = Optical(az_mask=np.array([0.0, 359.0]), el_mask=np.array([0.0, 90.0]), r_matrix=np.diag([1e-8, 1e-8]), diameter=1.0, efficiency=0.9, slew_rate=1.0,
+                      field_of_view=types.SimpleNamespace(), background_observations=False, minimum_range=0.0, maximum_range=1e6, detectable_vismag=20.0)
+        agents[sid] = SensingAgent(sid, f"S{sid}", "GroundFacility", np.array([6378.0, 10.0 * k, 0.0, 0.0, 0.46, 0.0]), clock, sen, TwoBody(), True, 10.0, 100.0, 0.2)
+    sc = object.__new__(SC.Scenario)
+    sc.clock = clock
+    sc.current_julian_date = clock.julian_date_epoch
+    sc.database = object()
+    nul = lambda *a, **k: None  # noqa: E731
+    sc.logger = types.SimpleNamespace(info=nul, error=nul, debug=nul, warning=nul)
+    sc.scenario_config = types.SimpleNamespace(propagation=types.SimpleNamespace(truth_simulation_only=False))
+    sc.target_agents = {t: _TokAgent(t) for t in targets}
+    sc._estimate_agents = {t: _TokAgent(t) for t in targets}
+    sc._sensor_agents = agents
+    sc._tasking_engines = {eng.unique_id: eng}
+    sc._ephem_importer = None
+    sc._stepped_epochs = {}
+    sc._agent_propagator, sc._estimate_predictor, sc._estimate_updater = _NoExec(), _NoExec(), _NoExec()
+    sc._target_store, sc._sensor_store, sc._estimate_store = {}, {}, {}
+    return sc
+
+
+def _scenario_shadows(rayst):
+    """The names of the scenario module that stand outside the tasking step."""
+    from resonaate.scenario import scenario as SC
+
+    return shadow(SC, ray=rayst, EventStack=types.SimpleNamespace(logAndFlushEvents=lambda: None), handleRelevantEvents=lambda *a, **k: None,
+                  getRelevantEvents=lambda *a, **k: [], PropagateRegistration=_Reg, EstPredictRegistration=_Reg, EstUpdateRegistration=_Reg)
+
+
+def _run_assess(targets, sensors, policy, steps=1, via="assess"):
+    """via="assess": the engine's assess() is called directly; via="scenario": the real Scenario.stepForward drives it and applies the results."""
     from resonaate.parallel import tasking_execution as TE
     from resonaate.parallel import tasking_reward_generation as TR
     from resonaate.tasking.engine import centralized_engine as CE
@@ -137,7 +231,7 @@ def _run_assess(targets, sensors, policy, steps=1):
         vis = np.array([boolean(f"vis{step[0]}_{tid}_{s}") for s in sensors], dtype=object)
         # concrete, distinct metric values (tasking variety comes from the symbolic visibility bits):
         # sensors prefer the first target except the last sensor, which prefers the second one
-        met = np.array([[(1.0 + 0.1 * k + (0.5 if ((si == nS - 1) == (tid != targets[0])) else 0.0)) for k in range(K)] for si in range(nS)])
+        met = np.array(_metric_values(targets, tid, nS, K))
         res = TR.RewardCalcResult(estimate_id=tid, visibility=vis, metric_matrix=met)
         log["reward"][(step[0], tid)] = res
         return res
@@ -158,13 +252,24 @@ def _run_assess(targets, sensors, policy, steps=1):
         return res
 
     snaps = []
+    sc = _bare_scenario(targets, sensors, eng) if via == "scenario" else None
     with shadow(P, ray=rayst), shadow(CE, ray=rayst, handleRelevantEvents=lambda *a, **k: None, zeros=_zeros_vis), \
             shadow(TR, asyncCalculateReward=Remote(rayst, reward_fn, "reward")), shadow(TE, asyncExecuteTasking=Remote(rayst, exec_fn, "exec")):
         for st in range(steps):
             step[0] = st
-            eng.setHandles({t: FakeEstimate(t) for t in targets}, {s: FakeSensor(s) for s in sensors}, {t: FakeEstimate(t) for t in targets})
-            t0 = _dt.datetime(2021, 1, 1, 0, st, 0)
-            eng.assess(t0, t0 + _dt.timedelta(seconds=60))
+            extra = {}
+            if sc is None:
+                eng.setHandles({t: FakeEstimate(t) for t in targets}, {s: FakeSensor(s) for s in sensors}, {t: FakeEstimate(t) for t in targets})
+                t0 = _dt.datetime(2021, 1, 1, 0, st, 0)
+                eng.assess(t0, t0 + _dt.timedelta(seconds=60))
+            else:
+                extra["pointing_before"] = {sid: _pointing(a) for sid, a in sc.sensor_agents.items()}
+                sc._estimate_updater.regs.clear()
+                with _scenario_shadows(rayst):
+                    sc.stepForward()
+                extra["pointing_after"] = {sid: _pointing(a) for sid, a in sc.sensor_agents.items()}
+                extra["updates"] = [reg.args for reg in sc._estimate_updater.regs]
+                extra["estimates"] = dict(sc.estimate_agents)
             snaps.append({
                 "observations": list(eng.observations), "saved_obs": list(eng.getCurrentObservations()),
                 "saved_miss": list(eng.getCurrentMissedObservations()), "sensor_changes": dict(eng.sensor_changes),
@@ -172,9 +277,15 @@ def _run_assess(targets, sensors, policy, steps=1):
                 "metric": np.array(eng.metric_matrix, dtype=object), "order": list(rayst.order),
                 "unfinished": (len(eng._reward_executor._unfinished_jobs), len(eng._reward_executor._result_reg_mapping),
                                len(eng._task_exec_executor._unfinished_jobs), len(eng._task_exec_executor._result_reg_mapping)),
+                **extra,
             })
-            eng.resetHandles()
+            if sc is None:
+                eng.resetHandles()
     return eng, log, snaps
+
+
+def _metric_values(targets, tid, nS, K):
+    return [[(1.0 + 0.1 * k + (0.5 if ((si == nS - 1) == (tid != targets[0])) else 0.0)) for k in range(K)] for si in range(nS)]
 
 
 def _zeros_vis(shape, dtype=None):
@@ -205,13 +316,21 @@ def replay_assess(d):
     return _concrete_assess(d)
 
 
+def _payload(st, tid, sid):
+    """The concrete pointing state job (step, target) reports for sensor sid in a replay: distinct per (step, target, sensor)."""
+    return np.array([float(tid), float(sid), 1.0 + st]), 10000.0 * (st + 1) + 100.0 * tid + sid
+
+
 def _concrete_assess(d):
+    """The real assess() / stepForward() on plain values, with its own oracle stated over what the step hands out: the decision matrix names the
+    tasked pairs; records, sensor_changes, the sensors' pointing state and the update jobs' observation lists are compared with the workers' results."""
     from resonaate.parallel import tasking_execution as TE
     from resonaate.parallel import tasking_reward_generation as TR
     from resonaate.tasking.engine import centralized_engine as CE
     import resonaate.parallel as P
 
     targets, sensors, policy = d["targets"], d["sensors"], d["policy"]
+    steps, via = int(d.get("steps", 1)), d.get("via", "assess")
     eng = _engine(targets, sensors, policy)
 
     class FixedRay(RayStub):
@@ -224,12 +343,21 @@ def _concrete_assess(d):
 
     rayst = FixedRay()
     cnt = [0]
+    step = [0]
+
+    def key(tid, sid=None):
+        # evidence written before the multi-step replay existed has no step prefix
+        k = f"{tid}" if sid is None else f"{tid}_{sid}"
+        return f"{step[0]}:{k}"
 
     def reward_fn(sub):
         tid = sub.estimate_handle.simulation_id
-        return TR.RewardCalcResult(estimate_id=tid, visibility=np.array(d["vis"][str(tid)], dtype=bool), metric_matrix=np.array(d["met"][str(tid)], dtype=float))
+        vis = d["vis"].get(key(tid), d["vis"].get(str(tid)))
+        met = d["met"].get(key(tid), d["met"].get(str(tid)))
+        return TR.RewardCalcResult(estimate_id=tid, visibility=np.array(vis, dtype=bool), metric_matrix=np.array(met, dtype=float))
 
     jobs = []
+    results = {}
 
     def exec_fn(sub):
         tid = sub.estimate_handle.simulation_id
@@ -237,45 +365,108 @@ def _concrete_assess(d):
         for sh in sub.sensor_handle_list:
             sid = sh.simulation_id
             cnt[0] += 1
-            (obs if d["observed"].get(f"{tid}_{sid}", False) else miss).append(Tok("rec", tid, sid, cnt[0]))
-            info.append({"sensor_id": sid, "boresight": np.array([tid, sid, 1.0]), "time_last_tasked": 100.0 * tid + sid})
-        jobs.append((tid, [sh.simulation_id for sh in sub.sensor_handle_list]))
-        return TE.TaskExecutionResult(target_id=tid, observations=obs, missed_observations=miss, sensor_info_list=info)
+            seen = d["observed"].get(key(tid, sid), d["observed"].get(f"{tid}_{sid}", False))
+            (obs if seen else miss).append(Tok("obs" if seen else "miss", tid, sid, cnt[0]))
+            bore, tlt = _payload(step[0], tid, sid)
+            info.append({"sensor_id": sid, "boresight": bore, "time_last_tasked": tlt})
+        jobs.append((step[0], tid, [sh.simulation_id for sh in sub.sensor_handle_list]))
+        res = TE.TaskExecutionResult(target_id=tid, observations=obs, missed_observations=miss, sensor_info_list=info)
+        results[(step[0], tid)] = (list(obs), list(miss))
+        return res
 
+    problems = []
+    sc = _bare_scenario(targets, sensors, eng) if via == "scenario" else None
     with shadow(P, ray=rayst), shadow(CE, ray=rayst, handleRelevantEvents=lambda *a, **k: None), \
             shadow(TR, asyncCalculateReward=Remote(rayst, reward_fn, "reward")), shadow(TE, asyncExecuteTasking=Remote(rayst, exec_fn, "exec")):
-        eng.setHandles({t: FakeEstimate(t) for t in targets}, {s: FakeSensor(s) for s in sensors}, {t: FakeEstimate(t) for t in targets})
-        t0 = _dt.datetime(2021, 1, 1)
-        eng.assess(t0, t0 + _dt.timedelta(seconds=60))
-    problems = []
-    recs = list(eng.observations) + list(eng.getCurrentMissedObservations())
-    for tid, sids in jobs:
-        for sid in sids:
-            n = sum(1 for r in recs if (r.target_id, r.sensor_id) == (tid, sid))
-            if n != 1:
-                problems.append(f"pair (t{tid},s{sid}) has {n} records")
-    tasked = {}
-    for tid, sids in jobs:
-        for sid in sids:
-            tasked.setdefault(sid, []).append(tid)
-    for sid, tids in tasked.items():
-        if sid not in eng.sensor_changes:
-            problems.append(f"tasked sensor {sid} missing from sensor_changes")
-        elif len(tids) == 1 and eng.sensor_changes[sid]["time_last_tasked"] != 100.0 * tids[0] + sid:
-            problems.append(f"sensor {sid} has another job's time_last_tasked")
+        for st in range(steps):
+            step[0] = st
+            if sc is None:
+                eng.setHandles({t: FakeEstimate(t) for t in targets}, {s: FakeSensor(s) for s in sensors}, {t: FakeEstimate(t) for t in targets})
+                t0 = _dt.datetime(2021, 1, 1, 0, st, 0)
+                eng.assess(t0, t0 + _dt.timedelta(seconds=60))
+            else:
+                before = {sid: _pointing(a) for sid, a in sc.sensor_agents.items()}
+                sc._estimate_updater.regs.clear()
+                with _scenario_shadows(rayst):
+                    sc.stepForward()
+            tag = f"step {st}: "
+            D = np.array(eng.decision_matrix, dtype=bool)
+            obs_now, saved_obs, miss_now = list(eng.observations), list(eng.getCurrentObservations()), list(eng.getCurrentMissedObservations())
+            recs = obs_now + miss_now
+            # exactly one record per tasked pair (the decision matrix names the tasked pairs), none for the others
+            for ti, tid in enumerate(targets):
+                for si, sid in enumerate(sensors):
+                    n = sum(1 for r in recs if (r.target_id, r.sensor_id) == (tid, sid))
+                    if n != (1 if D[ti, si] else 0):
+                        problems.append(tag + f"pair (t{tid},s{sid}) tasked={bool(D[ti, si])} has {n} records")
+            # the records are the workers' records, the list kept for the database equals the list of the step
+            want_obs = [o for (s_, _t), (ob, _m) in results.items() if s_ == st for o in ob]
+            want_miss = [m for (s_, _t), (_o, mi) in results.items() if s_ == st for m in mi]
+            if sorted(map(id, obs_now)) != sorted(map(id, want_obs)) or sorted(map(id, saved_obs)) != sorted(map(id, want_obs)):
+                problems.append(tag + "observations differ from the workers' observations")
+            if sorted(map(id, miss_now)) != sorted(map(id, want_miss)):
+                problems.append(tag + "missed observations differ from the workers' missed observations")
+            # pointing state: every tasked sensor carries what (one of) its job(s) reported; nobody else is touched
+            for si, sid in enumerate(sensors):
+                tids = [tid for ti, tid in enumerate(targets) if D[ti, si]]
+                allowed = [_payload(st, tid, sid) for tid in tids]
+                ch = eng.sensor_changes.get(sid)
+                if tids and ch is None:
+                    problems.append(tag + f"tasked sensor {sid} missing from sensor_changes")
+                elif tids and not any(np.array_equal(np.array(ch["boresight"], dtype=float), b) and float(ch["time_last_tasked"]) == t for b, t in allowed):
+                    problems.append(tag + f"sensor_changes[{sid}] is not what a job of sensor {sid} reported")
+                elif not tids and ch is not None:
+                    problems.append(tag + f"untasked sensor {sid} in sensor_changes")
+                if sc is not None:
+                    bore, tlt = _pointing(sc.sensor_agents[sid])
+                    if tids and not any(np.array_equal(np.array(bore, dtype=float), b) and float(tlt) == t for b, t in allowed):
+                        problems.append(tag + f"tasked sensor {sid}: pointing state after the step (time_last_tasked={float(tlt)}) is not what its job reported")
+                    if not tids and not (np.array_equal(np.array(bore, dtype=float), np.array(before[sid][0], dtype=float)) and float(tlt) == float(before[sid][1])):
+                        problems.append(tag + f"untasked sensor {sid}: pointing state changed")
+            # reward batch: each row from its own estimate
+            for ti, tid in enumerate(targets):
+                vis = d["vis"].get(key(tid), d["vis"].get(str(tid)))
+                if [bool(x) for x in eng.visibility_matrix[ti]] != [bool(x) for x in vis]:
+                    problems.append(tag + f"visibility row of target {tid} is not its own job's result")
+            if (len(eng._reward_executor._unfinished_jobs), len(eng._reward_executor._result_reg_mapping),
+                    len(eng._task_exec_executor._unfinished_jobs), len(eng._task_exec_executor._result_reg_mapping)) != (0, 0, 0, 0):
+                problems.append(tag + "executors not drained")
+            if sc is not None:
+                problems += [tag + p_ for p_ in _update_routing_problems(targets, [reg.args for reg in sc._estimate_updater.regs], dict(sc.estimate_agents), obs_now)]
+            else:
+                eng.resetHandles()
     return bool(problems), {"problems": problems, "jobs": jobs}
 
 
-def o_assess(rep, nT, nS, policy, steps=1):
+def _update_routing_problems(targets, updates, estimates, observations):
+    """Scenario.stepForward hands every estimate exactly one update job, carrying exactly the step's observations of that target (each once)."""
+    problems = []
+    for tid in targets:
+        mine = [u for u in updates if len(u) == 3 and getattr(u[0], "simulation_id", None) == tid]
+        if len(mine) != 1:
+            problems.append(f"estimate {tid} has {len(mine)} update jobs")
+            continue
+        _reg, handle, obs = mine[0]
+        if handle is not estimates[tid]:
+            problems.append(f"update job of estimate {tid} carries another estimate's handle")
+        if sorted(map(id, obs)) != sorted(id(o) for o in observations if o.target_id == tid):
+            problems.append(f"update job of estimate {tid} does not carry exactly the step's observations of target {tid}")
+    if len(updates) != len(targets):
+        problems.append(f"{len(updates)} update jobs for {len(targets)} estimates")
+    return problems
+
+
+def o_assess(rep, nT, nS, policy, steps=1, via="assess"):
     targets = [11, 12, 13][:nT]
     sensors = [21, 22, 23][:nS]
 
     def run():
-        return _run_assess(targets, sensors, policy, steps)
+        return _run_assess(targets, sensors, policy, steps, via)
 
     res = explore(run, max_paths=20000, max_depth=400)
-    rep.note(f"{policy} {nT}x{nS} steps={steps}: paths={len(res)}")
+    rep.note(f"{policy} {nT}x{nS} steps={steps} via={via}: paths={len(res)}")
     orders_seen = set()
+    classes = {"slewed-and-missed": [], "lowest-sensor-alone": [], "two-jobs": [], "shared-target": []}
     n = 0
     for r in res:
         if r.exc is not None:
@@ -302,6 +493,11 @@ def o_assess(rep, nT, nS, policy, steps=1):
                     n_o = sum(1 for x in recs_obs if (x.target_id, x.sensor_id) == (tid, sid))
                     n_m = sum(1 for x in recs_miss if (x.target_id, x.sensor_id) == (tid, sid))
                     goals.append(z3.BoolVal(n_o + n_m == 1))
+            # ... stated over the decision matrix too (the tasked pairs are the ones the engine publishes, whatever jobs it formed)
+            for ti, tid in enumerate(targets):
+                for si, sid in enumerate(sensors):
+                    n_r = sum(1 for x in list(recs_obs) + list(recs_miss) if (x.target_id, x.sensor_id) == (tid, sid))
+                    goals.append(z3.If(_tb(D[ti, si]), z3.BoolVal(n_r == 1), z3.BoolVal(n_r == 0)))
             want_obs = [o for _t, _s, res_ in jobs for o in res_.observations]
             want_miss = [o for _t, _s, res_ in jobs for o in res_.missed_observations]
             goals.append(z3.BoolVal(sorted(map(id, recs_obs)) == sorted(map(id, want_obs))))
@@ -330,28 +526,75 @@ def o_assess(rep, nT, nS, policy, steps=1):
                     goals.append(_tb(snap["visibility"][ti, si]) == _tb(rr.visibility[si]))
             # (e) executors drained
             goals.append(z3.BoolVal(snap["unfinished"] == (0, 0, 0, 0)))
+            if via == "scenario":
+                # (f) after the real stepForward every tasked sensor *agent* carries the pointing state its job reported (observed or missed alike);
+                #     a sensor no job reported on keeps the state it had before the step
+                for sid in sensors:
+                    bore, tlt = snap["pointing_after"][sid]
+                    if sid in tasked_by:
+                        goals.append(z3.Or(*[z3.And(_tr(tlt) == _tr(info["time_last_tasked"]), z3.BoolVal(len(bore) == len(info["boresight"])),
+                                                    *[_tr(a_) == _tr(b_) for a_, b_ in zip(bore, info["boresight"])]) for info in tasked_by[sid]]))
+                    else:
+                        bore0, tlt0 = snap["pointing_before"][sid]
+                        goals.append(z3.And(_tr(tlt) == _tr(tlt0), z3.BoolVal(len(bore) == len(bore0)), *[_tr(a_) == _tr(b_) for a_, b_ in zip(bore, bore0)]))
+                # (g) the step's observations reach the update job of their own estimate, each once
+                goals.append(z3.BoolVal(not _update_routing_problems(targets, snap["updates"], snap["estimates"], recs_obs)))
+            # branch classes (vacuity guards below): conditions over the published decision matrix and the step's records
+            observing = {x.sensor_id for x in recs_obs}
+            col = lambda si: z3.Or(*[_tb(D[ti, si]) for ti in range(len(targets))])  # noqa: E731
+            row = lambda ti: z3.Or(*[_tb(D[ti, si]) for si in range(len(sensors))])  # noqa: E731
+            conds = {
+                "slewed-and-missed": z3.Or(*[z3.And(col(si), z3.BoolVal(sid not in observing)) for si, sid in enumerate(sensors)]),
+                "lowest-sensor-alone": z3.Or(*[z3.And(_tb(D[ti, 0]), *[z3.Not(_tb(D[ti, si])) for si in range(1, len(sensors))]) for ti in range(len(targets))]),
+                "two-jobs": z3.Or(*([z3.And(row(a_), row(b_)) for a_ in range(len(targets)) for b_ in range(a_ + 1, len(targets))] or [z3.BoolVal(False)])),
+                "shared-target": z3.Or(*([z3.And(_tb(D[ti, a_]), _tb(D[ti, b_])) for ti in range(len(targets)) for a_ in range(len(sensors)) for b_ in range(a_ + 1, len(sensors))]
+                                         or [z3.BoolVal(False)])),
+            }
+            hints = {"slewed-and-missed": any(sid not in observing for (_t, sid) in {(x.target_id, x.sensor_id) for x in recs_miss}),
+                     "lowest-sensor-alone": any(sids == [sensors[0]] for _t, sids, _r in jobs), "two-jobs": len(jobs) >= 2,
+                     "shared-target": any(len(sids) >= 2 for _t, sids, _r in jobs)}
+            for c in classes:
+                classes[c].append((bool(hints[c]), conds[c], r.constraints))
         n += 1
-        decs = {c: bool(v) for c, v in zip(itertools.count(), r.path.decisions)}
 
         def inputs(m, r=r, log=log, snaps=snaps):
-            d = {"targets": targets, "sensors": sensors, "policy": policy, "order": {}, "vis": {}, "met": {}, "observed": {}}
-            for k in range(1, 9):
+            d = {"targets": targets, "sensors": sensors, "policy": policy, "steps": steps, "via": via, "order": {}, "vis": {}, "met": {}, "observed": {}}
+            for k in range(1, 1 + 2 * nT * steps):
                 v = m.eval(z3.Int(f"finish_{k}"), model_completion=True)
                 d["order"][str(k)] = v.as_long()
-            for tid in targets:
-                d["vis"][str(tid)] = [bool(mval(m, z3.Bool(f"vis0_{tid}_{s}"))) for s in sensors]
-                K = eng.num_metrics
-                nS_ = len(sensors)
-                d["met"][str(tid)] = [[(1.0 + 0.1 * k + (0.5 if ((si == nS_ - 1) == (tid != targets[0])) else 0.0)) for k in range(K)] for si in range(nS_)]
-                for s in sensors:
-                    d["observed"][f"{tid}_{s}"] = bool(mval(m, z3.Bool(f"observed0_{tid}_{s}")))
+            K = eng.num_metrics
+            for st in range(steps):
+                for tid in targets:
+                    d["vis"][f"{st}:{tid}"] = [bool(mval(m, z3.Bool(f"vis{st}_{tid}_{s}"))) for s in sensors]
+                    d["met"][f"{st}:{tid}"] = _metric_values(targets, tid, len(sensors), K)
+                    for s in sensors:
+                        d["observed"][f"{st}:{tid}_{s}"] = bool(mval(m, z3.Bool(f"observed{st}_{tid}_{s}")))
             return d
 
-        rep.prove(f"{policy}[{nT}x{nS}]#{n}", z3.And(*goals), r.constraints, inputs=inputs, replay=replay_assess if steps == 1 else None,
-                  sample=f"{policy} {nT}x{nS}: one record per tasked pair, saved lists exact, sensor state from own job, reward rows from own estimate, executors drained")
-    rep.note(f"distinct completion orders explored: {len(orders_seen)}")
+        what = "one record per tasked pair, saved lists exact, sensor state from own job, reward rows from own estimate, executors drained"
+        if via == "scenario":
+            what = "after the real Scenario.stepForward: " + what + "; tasked sensor agents carry their job's boresight/time_last_tasked (observed or missed), untasked ones unchanged; update jobs get their own target's observations"
+        rep.prove(f"{policy}[{nT}x{nS}]#{n}", z3.And(*goals), r.constraints, inputs=inputs, replay=replay_assess, sample=f"{policy} {nT}x{nS}: {what}")
+    rep.note(f"distinct completion orders explored: {len(orders_seen)}; paths by class: { {c: sum(1 for h, _c, _k in v if h) for c, v in classes.items()} }")
     if len(orders_seen) < 2 and nT > 1:
         rep.error("reach", "only one completion order explored")
+    # vacuity guards (reachability twins): each interesting tasking outcome is satisfiable on some explored path
+    need = ["two-jobs"] if nT > 1 else []
+    need += ["slewed-and-missed"]
+    if nT > 1 and nS > 1:
+        need += ["lowest-sensor-alone"]
+    if policy != "greedy" and nS > 1:
+        need += ["shared-target"]
+    from symx.core import solve
+
+    for c in need:
+        cands = sorted(classes[c], key=lambda x: not x[0])[:200]
+        for _hint, cond, cons in cands:
+            if solve(list(cons) + [cond], 5000).status == "sat":
+                rep.reachable(f"class:{c}", list(cons) + [cond])
+                break
+        else:
+            rep.error(f"class:{c}", f"no explored path of class {c}")
 
 
 def o_propagate_merge(rep):
@@ -423,6 +666,15 @@ def obligations(tier):
         name = f"assess-{pol}-{nT}x{nS}" + (f"-steps{steps}" if steps > 1 else "")
         obs.append(Ob(name, (lambda a: lambda rep: o_assess(rep, *a))((nT, nS, pol, steps)), f"assess() bookkeeping, {pol} {nT}x{nS}, {steps} step(s), all completion orders", 1500))
         REPLAYS[name] = replay_assess
+    # the same step through the real Scenario.stepForward: pointing state of the sensor agents and routing of the observations after the step
+    scen = [("greedy", 2, 2, 1), ("allvisible", 2, 2, 1)]
+    if tier == "thorough":
+        scen += [("greedy", 2, 3, 1), ("greedy", 2, 2, 2)]
+    for pol, nT, nS, steps in scen:
+        name = f"step-{pol}-{nT}x{nS}" + (f"-steps{steps}" if steps > 1 else "")
+        obs.append(Ob(name, (lambda a: lambda rep: o_assess(rep, *a, via="scenario"))((nT, nS, pol, steps)),
+                      f"Scenario.stepForward around assess(): sensor agents' pointing state and update routing, {pol} {nT}x{nS}, {steps} step(s), all completion orders", 1500))
+        REPLAYS[name] = replay_assess
     obs.append(Ob("propagate-merge", o_propagate_merge, "propagation results applied once to their own agent in any order", 300))
     # the worker side of "exactly one record per tasked pair": the real asyncExecuteTasking body on symbolic sensor constraints
     # (obligation shared with C02: oracle O2-exactly-one / O3-pointing over the worker's returned lists)
@@ -434,3 +686,12 @@ def obligations(tier):
             if ob.name in c02.REPLAYS:
                 REPLAYS["worker-" + ob.name] = c02.REPLAYS[ob.name]
     return obs
+
+
+# `./check C08 --replay <file>` looks the replay function up by obligation name without asking for the obligations first
+try:
+    obligations("thorough")
+except Exception:  # noqa: BLE001  (a broken neighbour harness must not hide this module's own replays)
+    for _n in ("assess-greedy-2x3", "assess-allvisible-2x2", "assess-greedy-2x2-steps2", "assess-greedy-3x3", "assess-allvisible-2x3",
+               "step-greedy-2x2", "step-allvisible-2x2", "step-greedy-2x3", "step-greedy-2x2-steps2"):
+        REPLAYS.setdefault(_n, replay_assess)
